@@ -80,11 +80,11 @@ Proof. exact header_faithful. Qed.
 Print Assumptions C01_header_faithful.
 
 Example C01_witness_header :
-  let h := mkHeaderD (Some (-1000, 2000, 3000, -4000)) [bytes_of_string "DenseNodes"] [[104]] (Some [112]) None
+  let h := mkHeaderD (Some (-1000, 2000, 3000, -4000)) [[68; 101; 110; 115; 101; 78; 111; 100; 101; 115]] [[104]] (Some [112]) None
                      (Some 1395698102) None (Some []) in
   valid_header h = true /\
   decode_header (encode_header h)
-  = Ok (mkHeader (Some (-1000, 2000, -4000, 3000)) [bytes_of_string "DenseNodes"] [[104]] [112] [] (Some 1395698102) 0 []).
+  = Ok (mkHeader (Some (-1000, 2000, -4000, 3000)) [[68; 101; 110; 115; 101; 78; 111; 100; 101; 115]] [[104]] [112] [] (Some 1395698102) 0 []).
 Proof. vm_compute. split; reflexivity. Qed.
 
 (* 5. whole files.  (a) one decoder reused for every block; (b) n workers with round-robin dispatch
